@@ -7,6 +7,7 @@ import (
 	"iter"
 	"os"
 	"path/filepath"
+	"reflect"
 	"runtime"
 	"sort"
 	"strings"
@@ -20,8 +21,43 @@ import (
 // Domain "resume": SubscribeWithReplay across restarts, with the k-th store operation failing
 // and/or the process "dying" right after the k-th store operation (M5).
 
-type RT1 struct{ R int }
-type RT2 struct{ R int }
+// RT1 and RT2 carry optional parts that depend on the record number: an event decoded on top of an earlier one (instead
+// of into a fresh value) keeps parts it should not have
+type RT1 struct {
+	R   int
+	Opt *int           `json:"opt,omitempty"`
+	M   map[string]int `json:"m,omitempty"`
+}
+type RT2 struct {
+	R   int
+	Opt *int           `json:"opt,omitempty"`
+	M   map[string]int `json:"m,omitempty"`
+}
+
+func rtParts(r int) (*int, map[string]int) {
+	var opt *int
+	var m map[string]int
+	if r%2 == 0 {
+		v := r
+		opt = &v
+	}
+	if r%3 != 0 {
+		m = map[string]int{fmt.Sprintf("k%d", r%3): r}
+	}
+	return opt, m
+}
+
+func mkRT1(r int) RT1 { o, m := rtParts(r); return RT1{r, o, m} }
+func mkRT2(r int) RT2 { o, m := rtParts(r); return RT2{r, o, m} }
+
+// faithful returns r if the delivered event is exactly record r, and r + 1000000 otherwise
+func faithful(r int, opt *int, m map[string]int) int {
+	o, mm := rtParts(r)
+	if !reflect.DeepEqual(opt, o) || !reflect.DeepEqual(m, mm) {
+		return r + 1000000
+	}
+	return r
+}
 type RT3 struct{ R int }
 
 // EventTypeName on the POINTER receiver: RT3 is published and subscribed by value, so the method is not in the
@@ -229,9 +265,9 @@ func (rc *resumeCase) newBus() *eb.EventBus {
 func (rc *resumeCase) publishTy(ty, r int) {
 	switch ty {
 	case 1:
-		eb.Publish(rc.bus, RT1{r})
+		eb.Publish(rc.bus, mkRT1(r))
 	case 2:
-		eb.Publish(rc.bus, RT2{r})
+		eb.Publish(rc.bus, mkRT2(r))
 	default:
 		eb.Publish(rc.bus, RT3{r})
 	}
@@ -325,9 +361,9 @@ func resumeDomain(lines []string) []string {
 			var err error
 			switch ty {
 			case 1:
-				err = resumeSub(rc, id, func(e RT1) int { return e.R }, pd)
+				err = resumeSub(rc, id, func(e RT1) int { return faithful(e.R, e.Opt, e.M) }, pd)
 			case 2:
-				err = resumeSub(rc, id, func(e RT2) int { return e.R }, pd)
+				err = resumeSub(rc, id, func(e RT2) int { return faithful(e.R, e.Opt, e.M) }, pd)
 			default:
 				err = resumeSub(rc, id, func(e RT3) int { return e.R }, pd)
 			}
@@ -352,7 +388,7 @@ func resumeDomain(lines []string) []string {
 				go func(i int) {
 					defer wg.Done()
 					for k := 0; k < n; k++ {
-						eb.Publish(b, RT1{i*1000 + k})
+						eb.Publish(b, mkRT1(i*1000+k))
 					}
 				}(i)
 			}
